@@ -32,6 +32,9 @@ func (e *Enc) value(fc *fctx, v ssa.Value) Val {
 		}
 	}
 	if val, ok := fc.vals[v]; ok {
+		if val.K == vLocal && e.cur != nil && len(e.cur.st.mat) > 0 {
+			return e.resolveLocal(e.cur.st, val)
+		}
 		return val
 	}
 	e.unsupportedf("%s: value %s (%T) used before definition", e.m.fnName[fc.fn], v.Name(), v)
@@ -54,6 +57,10 @@ func (e *Enc) asTerm(v Val) string {
 	case vClosure:
 		return v.T
 	case vLocal:
+		if e.lazy[v.Alloc] && e.cur != nil {
+			e.materialize(e.cur, v.Alloc)
+			return e.asTerm(e.resolveLocal(e.cur.st, v))
+		}
 		e.unsupportedf("address of non-escaping local %s escapes", v.Alloc.Comment)
 		return e.fresh("escaped", "Addr")
 	case vFieldRef:
@@ -97,6 +104,13 @@ func (e *Enc) instr(cur *cursor, ins ssa.Instruction) {
 	case *ssa.Alloc:
 		et := x.Type().(*types.Pointer).Elem()
 		if !x.Heap {
+			st.loc[x] = e.m.zero(et)
+			fc.vals[x] = Val{K: vLocal, Alloc: x, Ty: x.Type()}
+			e.noteAlloc(cur, x)
+			return
+		}
+		if e.lazyOK(fc, x) {
+			e.lazy[x] = true
 			st.loc[x] = e.m.zero(et)
 			fc.vals[x] = Val{K: vLocal, Alloc: x, Ty: x.Type()}
 			e.noteAlloc(cur, x)
